@@ -136,6 +136,9 @@ func decCfg(c *Sx) Cfg {
 	cfg.RRVS = sxBool(c.arg1("rrvs"))
 	cfg.LMTPSession = sxBool(c.arg1("lmtpsession"))
 	cfg.ImplicitTLS = sxBool(c.arg1("implicittls"))
+	if t := c.arg1("timeouts"); t != nil {
+		cfg.Timeouts = sxBool(t)
+	}
 	if a := c.arg1("auth"); a != nil && a.IsL {
 		cfg.HasAuth = true
 		for _, m := range a.List {
